@@ -1,6 +1,7 @@
 package sym
 
 import (
+	"os"
 	"bufio"
 	"fmt"
 	"io"
@@ -37,6 +38,17 @@ type Solver struct {
 	Log       io.Writer // optional transcript
 	buf       strings.Builder
 	dead      bool
+	asserted  []*Term
+	fresh     *Solver // fallback: non-incremental re-check of queries the incremental core gives up on
+	SoftMs    int
+	Fallbacks int
+	isFresh   bool
+	abstract  bool // emit multiplications/divisions as uninterpreted constants (sound for unsat)
+	cvc       *Solver
+	alt       *Solver // cvc5 --solve-bv-as-int=sum
+	AltHits   int
+	struggled bool // the incremental core already gave up once on this path
+	AbstractHits int
 }
 
 // SolverCommand returns argv for a named back end.
@@ -45,7 +57,11 @@ func SolverCommand(name string) []string {
 	case "z3-new":
 		return []string{"z3-new", "-in"}
 	case "cvc5":
-		return []string{"cvc5", "--incremental", "--lang=smt2", "--produce-models"}
+		return []string{"cvc5", "--incremental", "--lang=smt2", "--produce-models", "--tlimit-per=60000"}
+	case "cvc5-int":
+		// bit-vectors solved as integers modulo 2^k: decides multiply-by-constant and
+		// borrow/carry chains that stall the bit-blasting back ends
+		return []string{"cvc5", "--incremental", "--lang=smt2", "--produce-models", "--tlimit-per=20000", "--solve-bv-as-int=sum"}
 	}
 	return []string{"z3", "-in"}
 }
@@ -70,6 +86,15 @@ func StartSolver(name string, timeoutMs int) (*Solver, error) {
 }
 
 func (s *Solver) Close() {
+	if s.fresh != nil {
+		s.fresh.Close()
+	}
+	if s.cvc != nil {
+		s.cvc.Close()
+	}
+	if s.alt != nil {
+		s.alt.Close()
+	}
 	if s.cmd != nil && !s.dead {
 		s.dead = true
 		io.WriteString(s.in, "(exit)\n")
@@ -105,12 +130,119 @@ func (s *Solver) Begin(tc *TermCtx) {
 	s.tc = tc
 	s.emitted = map[*Term]bool{}
 	s.tablesOut = 0
+	s.asserted = s.asserted[:0]
+	s.struggled = false
 	s.send("(reset)")
-	if s.Name == "cvc5" {
+	if strings.HasPrefix(s.Name, "cvc5") {
 		s.send("(set-logic ALL)")
 	} else {
-		s.send(fmt.Sprintf("(set-option :timeout %d)", s.TimeoutMs))
+		to := s.TimeoutMs
+		if !s.isFresh && s.SoftMs > 0 && s.SoftMs < to {
+			to = s.SoftMs
+		}
+		s.send(fmt.Sprintf("(set-option :timeout %d)", to))
 	}
+}
+
+// tryAlt asks cvc5 in bv-as-int mode; ok is false when it has no verdict either.
+func (s *Solver) tryAlt(extra []*Term, want []*Term) (Result, []ModelValue, bool) {
+	if s.alt == nil || s.alt.dead {
+		a, err := StartSolver("cvc5-int", 20000)
+		if err != nil {
+			return Unknown, nil, false
+		}
+		a.isFresh = true
+		s.alt = a
+	}
+	a := s.alt
+	a.Begin(s.tc)
+	a.Errors = nil
+	for _, t := range s.asserted {
+		a.Assert(t)
+	}
+	r, v := a.CheckModel(extra, want)
+	if len(a.Errors) > 0 || r == Unknown {
+		if a.dead {
+			s.alt = nil
+		}
+		return Unknown, nil, false
+	}
+	s.AltHits++
+	return r, v, true
+}
+
+var hardOp = map[string]bool{"bvmul": true, "bvudiv": true, "bvurem": true, "bvsdiv": true, "bvsrem": true, "div": true, "mod": true}
+
+// recheck decides pc ∧ extra from scratch in a second solver process (no incremental state).
+func (s *Solver) recheck(extra []*Term, want []*Term) (Result, []ModelValue) {
+	if s.isFresh {
+		return Unknown, nil
+	}
+	if s.fresh == nil || s.fresh.dead {
+		f, err := StartSolver(s.Name, s.TimeoutMs)
+		if err != nil {
+			return Unknown, nil
+		}
+		f.isFresh = true
+		s.fresh = f
+	}
+	s.Fallbacks++
+	s.struggled = true
+	if r, v, ok := s.tryAlt(extra, want); ok {
+		return r, v
+	}
+	f := s.fresh
+	// next attempt: arithmetic kernels abstracted to uninterpreted constants; unsat carries over
+	f.abstract = true
+	f.TimeoutMs = 10000
+	f.Begin(s.tc)
+	f.Errors = nil
+	for _, a := range s.asserted {
+		f.Assert(a)
+	}
+	if r0, _ := f.CheckModel(extra, nil); r0 == Unsat {
+		s.AbstractHits++
+		return Unsat, nil
+	}
+	f.abstract = false
+	f.TimeoutMs = s.TimeoutMs
+	var logb strings.Builder
+	if os.Getenv("GOSMT_UNKNOWN_DIR") != "" {
+		f.Log = &logb
+	}
+	f.Begin(s.tc)
+	f.Errors = nil
+	for _, a := range s.asserted {
+		f.Assert(a)
+	}
+	r, v := f.CheckModel(extra, want)
+	if f.Log != nil {
+		os.WriteFile(fmt.Sprintf("%s/%s-%d-%d.smt2", os.Getenv("GOSMT_UNKNOWN_DIR"), r, os.Getpid(), s.Fallbacks), []byte(logb.String()), 0o644)
+	}
+	f.Log = nil
+	if r == Unknown && s.Name != "cvc5" {
+		if s.cvc == nil || s.cvc.dead {
+			c, err := StartSolver("cvc5", s.TimeoutMs)
+			if err == nil {
+				c.isFresh = true
+				s.cvc = c
+			}
+		}
+		if s.cvc != nil {
+			c := s.cvc
+			c.Begin(s.tc)
+			c.Errors = nil
+			for _, a := range s.asserted {
+				c.Assert(a)
+			}
+			r, v = c.CheckModel(extra, want)
+			if len(c.Errors) > 0 {
+				r = Unknown
+			}
+		}
+	}
+	s.Errors = append(s.Errors, f.Errors...)
+	return r, v
 }
 
 func (s *Solver) emitTables() {
@@ -186,6 +318,11 @@ func (s *Solver) ref(t *Term) string {
 		if cur.Op == "table" {
 			s.emitTables()
 		}
+		if s.abstract && hardOp[cur.Op] {
+			s.send(fmt.Sprintf("(declare-const t%d %s)", cur.id, sortOf(cur)))
+			s.emitted[cur] = true
+			continue
+		}
 		var sb strings.Builder
 		fmt.Fprintf(&sb, "(define-fun t%d () %s (%s", cur.id, sortOf(cur), head(cur))
 		for _, a := range cur.Args {
@@ -206,6 +343,7 @@ func (s *Solver) Assert(t *Term) {
 	}
 	r := s.ref(t)
 	s.send("(assert " + r + ")")
+	s.asserted = append(s.asserted, t)
 }
 
 func (s *Solver) readLine() (string, error) {
@@ -228,6 +366,14 @@ func (s *Solver) Check(extra ...*Term) Result {
 		}
 		refs = append(refs, s.ref(e))
 	}
+	if s.struggled && !s.isFresh && s.tc.HasHard {
+		start := time.Now()
+		if r, _, ok := s.tryAlt(extra, nil); ok {
+			s.Time += time.Since(start)
+			s.Queries++
+			return r
+		}
+	}
 	s.send("(push 1)")
 	for _, r := range refs {
 		s.send("(assert " + r + ")")
@@ -236,9 +382,12 @@ func (s *Solver) Check(extra ...*Term) Result {
 	s.flush()
 	start := time.Now()
 	res := s.readResult()
+	s.send("(pop 1)")
+	if res == Unknown && !s.isFresh {
+		res, _ = s.recheck(extra, nil)
+	}
 	s.Time += time.Since(start)
 	s.Queries++
-	s.send("(pop 1)")
 	return res
 }
 
@@ -290,6 +439,54 @@ type ModelValue struct {
 	I *big.Int
 }
 
+// CheckAssert is CheckModel for queries expected to be unsat: when the path contains
+// multiplications it first tries the abstraction (kernels as uninterpreted constants), whose
+// unsat verdict carries over, before paying for bit-blasting.
+func (s *Solver) CheckAssert(extra []*Term, want []*Term) (Result, []ModelValue) {
+	if s.tc != nil && s.tc.HasHard && !s.isFresh {
+		start := time.Now()
+		if r, v, ok := s.tryAlt(extra, want); ok {
+			s.Time += time.Since(start)
+			s.Queries++
+			return r, v
+		}
+		if s.abstractUnsat(extra) {
+			s.Queries++
+			return Unsat, nil
+		}
+	}
+	return s.CheckModel(extra, want)
+}
+
+func (s *Solver) abstractUnsat(extra []*Term) bool {
+	if s.fresh == nil || s.fresh.dead {
+		f, err := StartSolver(s.Name, s.TimeoutMs)
+		if err != nil {
+			return false
+		}
+		f.isFresh = true
+		s.fresh = f
+	}
+	f := s.fresh
+	f.abstract = true
+	f.TimeoutMs = 5000
+	start := time.Now()
+	f.Begin(s.tc)
+	f.Errors = nil
+	for _, a := range s.asserted {
+		f.Assert(a)
+	}
+	r, _ := f.CheckModel(extra, nil)
+	f.abstract = false
+	f.TimeoutMs = s.TimeoutMs
+	s.Time += time.Since(start)
+	if r == Unsat && len(f.Errors) == 0 {
+		s.AbstractHits++
+		return true
+	}
+	return false
+}
+
 // CheckModel runs check-sat with extra and, if sat, evaluates the given terms.
 func (s *Solver) CheckModel(extra []*Term, want []*Term) (Result, []ModelValue) {
 	if s.dead {
@@ -309,6 +506,14 @@ func (s *Solver) CheckModel(extra []*Term, want []*Term) (Result, []ModelValue) 
 	for i, w := range want {
 		wrefs[i] = s.ref(w)
 	}
+	if s.struggled && !s.isFresh && s.tc.HasHard {
+		start := time.Now()
+		if r, v, ok := s.tryAlt(extra, want); ok {
+			s.Time += time.Since(start)
+			s.Queries++
+			return r, v
+		}
+	}
 	s.send("(push 1)")
 	for _, r := range refs {
 		s.send("(assert " + r + ")")
@@ -317,6 +522,13 @@ func (s *Solver) CheckModel(extra []*Term, want []*Term) (Result, []ModelValue) 
 	s.flush()
 	start := time.Now()
 	res := s.readResult()
+	if res == Unknown && !s.isFresh {
+		s.send("(pop 1)")
+		res, vals := s.recheck(extra, want)
+		s.Time += time.Since(start)
+		s.Queries++
+		return res, vals
+	}
 	s.Time += time.Since(start)
 	s.Queries++
 	var vals []ModelValue
